@@ -273,3 +273,57 @@ package xmpp
 //@   ensures [C16.wire.first] err == nil ==> count(Write) == old(count(Write)) + 1 && at(Write, count(Write) - 1) < at(PacketRead, count(PacketRead) - 1)
 //@   assigns c.TransportConfiguration.Domain, c.transport, c.CurrentState.state
 //@   emits EventHandler, Connected, Write, PacketRead, Spawn_recv, Spawn
+
+// ---------------------------------------------------------------------------
+// C14: SASL
+//
+//@ func xmpp.isSupportedMech(mech, mechanisms) (found)
+//@   ensures [C14.supported.found] found ==> inList(mechanisms, mech)
+//@   ensures [C14.supported.none]  !found ==> forall(k, 0, len(mechanisms), mechanisms[k] != mech)
+//@   loop 1:
+//@     invariant 0 <= $i && $i <= len(mechanisms) && forall(k, 0, $i, mechanisms[k] != mech)
+//@     decreases len(mechanisms) - $i
+//
+//@ func xmpp.Password(pwd) (c)
+//@   ensures [C14.cred.password] c.secret == pwd && len(c.mechanisms) == 1 && c.mechanisms[0] == "PLAIN"
+//@ func xmpp.OAuthToken(token) (c)
+//@   ensures [C14.cred.token] c.secret == token && len(c.mechanisms) == 1 && c.mechanisms[0] == "X-OAUTH2"
+//
+//@ pred plainPayload(mech, user, secret) := xmlSASLAuth(mech, b64("\x00" + user + "\x00" + secret))
+//@ pred permanentErr(err) := err != nil && typeof(err) == ConnError && err.(ConnError).Permanent
+//
+//@ func xmpp.authPlain(socket, decoder, mech, user, secret) (err)
+//@   requires socket != nil && decoder != nil
+//@   ensures [C14.plain.once]    count(Write) <= old(count(Write)) + 1 && count(PacketRead) <= old(count(PacketRead)) + 1
+//@   ensures [C14.plain.payload] count(Write) == old(count(Write)) + 1 ==> last(Write, 0) == socket && last(Write, 1) == plainPayload(mech, user, secret)
+//@   ensures [C14.plain.order]   count(PacketRead) == old(count(PacketRead)) + 1 ==> count(Write) == old(count(Write)) + 1 && atlast(Write) < atlast(PacketRead)
+//@   ensures [C14.plain.success] err == nil ==> count(PacketRead) == old(count(PacketRead)) + 1 && typeof(last(PacketRead)) == stanza.SASLSuccess
+//@   ensures [C14.plain.failure] (count(PacketRead) == old(count(PacketRead)) + 1 && typeof(last(PacketRead)) == stanza.SASLFailure) ==> permanentErr(err)
+//@   emits Write, PacketRead
+//
+//@ pred advertised(f, m) := inList(f.Mechanisms.Mechanism, m)
+//@ pred firstCommon(cred, f, k) := 0 <= k && k < len(cred.mechanisms) && advertised(f, cred.mechanisms[k]) && forall(j, 0, k, !advertised(f, cred.mechanisms[j]))
+//
+//@ func xmpp.authSASL(socket, decoder, f, user, credential) (err)
+//@   requires socket != nil && decoder != nil
+//@   ensures [C14.sasl.none]   forall(k, 0, len(credential.mechanisms), !advertised(f, credential.mechanisms[k])) ==> count(Write) == old(count(Write)) && permanentErr(err)
+//@   ensures [C14.sasl.once]   count(Write) <= old(count(Write)) + 1
+//@   ensures [C14.sasl.chosen] count(Write) == old(count(Write)) + 1 ==> exists(k, 0, len(credential.mechanisms), firstCommon(credential, f, k) && (credential.mechanisms[k] == "PLAIN" || credential.mechanisms[k] == "X-OAUTH2") && last(Write, 1) == plainPayload(credential.mechanisms[k], user, credential.secret))
+//@   ensures [C14.sasl.success] err == nil ==> count(Write) == old(count(Write)) + 1 && count(PacketRead) == old(count(PacketRead)) + 1 && typeof(last(PacketRead)) == stanza.SASLSuccess
+//@   ensures [C14.sasl.failure] (count(PacketRead) == old(count(PacketRead)) + 1 && typeof(last(PacketRead)) == stanza.SASLFailure) ==> permanentErr(err)
+//@   emits Write, PacketRead
+//@   loop 1:
+//@     invariant 0 <= $i && $i <= len(credential.mechanisms) && forall(j, 0, $i, !advertised(f, credential.mechanisms[j])) && matchingMech == ""
+//@     invariant count(Write) == old(count(Write)) && count(PacketRead) == old(count(PacketRead))
+//@     decreases len(credential.mechanisms) - $i
+//
+//@ func (*xmpp.Session).auth(s, o)
+//@   requires s != nil && o != nil && s.transport != nil && o.parsedJid != nil
+//@   ensures [C03.sticky.auth] old(s.err) != nil ==> s.err == old(s.err) && count(Write) == old(count(Write)) && count(PacketRead) == old(count(PacketRead))
+//@   ensures [C14.auth.once]   count(Write) <= old(count(Write)) + 1
+//@   ensures [C14.auth.user]   count(Write) == old(count(Write)) + 1 ==> exists(k, 0, len(o.Credential.mechanisms), firstCommon(o.Credential, s.Features, k) && last(Write, 1) == plainPayload(o.Credential.mechanisms[k], o.parsedJid.Node, o.Credential.secret))
+//@   ensures [C14.auth.ok]     (old(s.err) == nil && s.err == nil) ==> count(PacketRead) == old(count(PacketRead)) + 1 && typeof(last(PacketRead)) == stanza.SASLSuccess
+//@   ensures [C14.auth.failure] (old(s.err) == nil && count(PacketRead) == old(count(PacketRead)) + 1 && typeof(last(PacketRead)) == stanza.SASLFailure) ==> permanentErr(s.err)
+//@   ensures s.Features == old(s.Features) && s.transport == old(s.transport)
+//@   assigns s.err
+//@   emits Write, PacketRead
